@@ -7,6 +7,7 @@ package funcs
 
 import (
 	"fmt"
+	"sort"
 
 	"github.com/GuanceCloud/grok"
 	"github.com/GuanceCloud/platypus/pkg/ast"
@@ -95,7 +96,15 @@ func Grok(ctx *runtime.Task, funcExpr *ast.CallExpr) *errchain.PlError {
 		return nil
 	}
 
-	for k, v := range m {
+	// in the order of the names: two captures that end up under one key (`_` is
+	// `message`) must not depend on the iteration order of a map
+	names := make([]string, 0, len(m))
+	for k := range m {
+		names = append(names, k)
+	}
+	sort.Strings(names)
+	for _, k := range names {
+		v := m[k]
 		var dtype ast.DType
 		if v == nil {
 			dtype = ast.Nil
